@@ -453,6 +453,9 @@ def main(tier):
     rep.attempt(check_cmp, rep, mod)
     rep.attempt(check_trailer_write, rep, mod, flags)
     rep.attempt(check_adler_range, rep, mod)
+    import c04, guardloop
+    rep.attempt(c04.check_adler, rep)          # the Adler-32 kernels' constants and overflow schedule: the zlib trailer is their result
+    rep.attempt(guardloop.check, rep, 'ADLER', r'adler32', 2)
     rep.attempt(check_csum_range, rep, mod)
     rep.attempt(check_csum_guard, rep, mod, flags)
     rep.attempt(check_state_after_compare, rep, mod)
